@@ -109,7 +109,7 @@ def make_machine(H: Harness) -> Any:
 
         def do(self, op: Dict[str, Any]) -> None:
             self.case["ops"].append(op)
-            found = self.I.apply(op)
+            found = H.guarded_apply(self.I.apply, op)
             if found:
                 self.failed = True
                 res = CaseResult()
